@@ -197,14 +197,23 @@ class StubSim(mosaik_api_v3.Simulator):
         run = self.run
         kind = f["kind"]
         if kind == "raise":
-            others = sum(1 for s, v in run.in_flight.items() if v > 0 and s != self.sid)
+            others = sum(1 for s, v in run.in_flight_mosaik.items() if v > 0 and s != self.sid)
             run.rec("fault", kind, self.sid, func, n, others)
             run.fault_state["fired"] = run.fault_state.get("fired", 0) + 1
             run.in_flight[self.sid] = run.in_flight.get(self.sid, 1) - 1
             raise SimFault(f"injected failure in {self.sid}.{func} (request {n})")
-        if kind in ("close_after_read", "torn_reply", "close_after_reply"):
-            # handled by the node wrapper (transport level); mark and continue
-            run.fault_state.setdefault("node_faults", {})[self.sid] = (f, func, n)
+        others = sum(1 for s, v in run.in_flight_mosaik.items() if v > 0 and s != self.sid)
+        node = getattr(self, "_node", None)
+        if node is None:
+            return
+        if kind == "kill_in_handler":
+            run.rec("fault", kind, self.sid, func, n, others)
+            run.fault_state["fired"] = run.fault_state.get("fired", 0) + 1
+            node.kill()
+        elif kind == "kill_after_reply":
+            run.fault_state.setdefault("on_node_write", {})[self.sid] = "kill"
+        elif kind == "torn_reply":
+            run.fault_state.setdefault("on_node_write", {})[self.sid] = "torn"
 
     def _mangle(self, func, ret):
         f = self._fault(func, self.cur_req, "reply")
